@@ -16,11 +16,12 @@ HARNESS = {'tsan': ['xvthr'], 'asan': ['xvthr']}
 RULE = ('one case = N in {2,3,4,8,16} threads x 1..12 work items (private parse sax1/sax2/dom/domls with no/DTD/schema validation incl. '
         'pattern facets with \\p{..} \\p{Is..} \\w; parse on ONE shared lockPool()ed XMLGrammarPoolImpl with documents introducing new '
         'namespace URIs; private DOM build/mutate/serialise incl. registry lookup and owner-less doctype; RegularExpression compile+match '
-        'with category escapes; XMLString::transcode both ways and named transcoders; parser create/destroy; exception/validity message '
+        'with category escapes; XMLString::transcode both ways and named transcoders; xcode-storm = thousands of local-code-page transcodes of mostly non-ASCII '
+        'strings whose every result is compared in the thread with the value computed before the barrier (locks around uninstrumented ICU state); parser create/destroy; exception/validity message '
         'text) released from a barrier directly after Initialize() in a fresh process, optional seeded yield/sleep perturbation. '
         'non-trivial = the harness measured (per-thread bookkeeping of the facilities each executed item touched) that >=2 threads used '
         'the same lazily initialised facility or shared object (rangetoken:{unicode,block,xml}, kidOK, domimpl-registry, doctype-ownerless, '
-        'lcp, transservice, uripool/shared-pool, scanner-id, msgload) within the case; distinct by sha1(workload, seed, flavour).')
+        'lcp, lcp-storm, transservice, uripool/shared-pool, scanner-id, msgload) within the case; distinct by sha1(workload, seed, flavour).')
 ASSUMPTIONS = ['ThreadSanitizer (happens-before, clang 14) sees only instrumented code: libxerces-c and the harness; ICU/curl/libstdc++ are not instrumented',
                'reports whose stacks contain no xercesc_4_0:: frame are ignored and counted (ignored_reports)',
                'schedules are perturbed (seeded yields/sleeps between items, OS scheduling), not enumerated; no XERCES_VERIF_HOOKS sites exist',
@@ -143,6 +144,10 @@ def item_fields(it):
         return f
     if k == 'xcode':
         return {'k': k, 'enc': it['enc'], 'text': xv.esc(it['text']), 'reps': it.get('reps', 1)}
+    if k == 'storm':
+        f = {'k': k, 'reps': it['reps']}
+        for i, t in enumerate(it['strs']): f['s.%d' % i] = xv.esc(t)
+        return f
     if k == 'life':
         return {'k': k, 'seq': ','.join(it['seq']), 'lifo': it['lifo']}
     if k == 'msg':
@@ -474,12 +479,31 @@ def xcode_item(draw):
     big = draw(st.integers(0, 5)) == 0
     return {'k': 'xcode', 'enc': draw(st.sampled_from(ENCS)), 'text': text * (40 if big else 1), 'reps': draw(st.sampled_from([1, 1, 3, 20]))}
 
+STORM_CHUNKS = ['Жук', 'Привет мир ', '中文', '漢字かな', 'Ωμέγα', 'été€', 'Ж', '中', 'Жx', 'ab中', 'abc']      # mostly non-ASCII: UTF-8 form > 1.25 x length
+@st.composite
+def storm_item(draw):
+    """xcode-storm: many rounds on the ONE process-wide local-code-page converter; lengths 1..200 so that both the first-try
+    path (ASCII-dominant / very short) and the retry path (UTF-8 longer than len*1.25+1) of ICULCPTranscoder::transcode occur"""
+    strs = []
+    for _ in range(draw(st.integers(1, 6))):
+        chunk = draw(st.sampled_from(STORM_CHUNKS)); L = draw(st.integers(1, 200))
+        strs.append((chunk * (L // len(chunk) + 1))[:L])
+    return {'k': 'storm', 'strs': strs, 'reps': draw(st.sampled_from([2000, 5000, 10000, 20000]))}
+
+STORM_TOTAL = 120000      # bound on (threads running a storm) x rounds per case: keeps a TSan case at ~2 s CPU
+def cap_storms(threads):
+    items = [it for t in threads for it in t if it['k'] == 'storm']
+    if items:
+        cap = max(500, STORM_TOTAL // len(items))
+        for it in items: it['reps'] = min(it['reps'], cap)
+    return threads
+
 life_item = st.builds(lambda seq, lifo: {'k': 'life', 'seq': seq, 'lifo': int(lifo)},
                       st.lists(st.sampled_from(['s1', 's2', 'd', 'dw', 'ds', 'l', 'w', 'src']), min_size=1, max_size=6), st.booleans())
 msg_item = st.builds(lambda w: {'k': 'msg', 'which': w}, st.lists(st.integers(0, 7), min_size=1, max_size=4))
 
 def item_strategy(pool):
-    alts = [parse_item(), parse_item(), dom_item(), dom_item(), regex_item(), regex_item(), xcode_item(), life_item, msg_item]
+    alts = [parse_item(), parse_item(), dom_item(), dom_item(), regex_item(), regex_item(), xcode_item(), life_item, msg_item, storm_item()]
     if pool: alts += [pparse_item(pool)] * 4
     return st.one_of(*alts)
 
@@ -491,10 +515,11 @@ def case_strategy(draw, tier='quick'):
     maxlen = 12 if n <= 4 else 6
     # homogeneous first items make concurrent first use of one facility likely: optionally give every thread the same kind of first item
     threads = draw(st.lists(st.lists(item_strategy(pool), min_size=1, max_size=maxlen), min_size=n, max_size=n))
-    lead = draw(st.sampled_from([None, None, 'dom', 'regex', 'xcode', 'pparse' if pool else 'parse', 'parse']))
+    lead = draw(st.sampled_from([None, None, 'dom', 'regex', 'xcode', 'pparse' if pool else 'parse', 'parse', 'storm', 'storm', 'storm']))
     if lead:
-        gen = {'dom': dom_item(), 'regex': regex_item(), 'xcode': xcode_item(), 'parse': parse_item(), 'pparse': pparse_item(pool) if pool else parse_item()}[lead]
+        gen = {'storm': storm_item(), 'dom': dom_item(), 'regex': regex_item(), 'xcode': xcode_item(), 'parse': parse_item(), 'pparse': pparse_item(pool) if pool else parse_item()}[lead]
         threads = [[draw(gen)] + t for t in threads]
+    threads = cap_storms(threads)
     case = {'threads': threads, 'seed': draw(st.integers(0, 2 ** 32 - 1)), 'perturb': int(draw(st.booleans())), 'pool': pool,
             'flavour': draw(st.sampled_from(['tsan'] * 5 + ['asan']))}
     # step over active known findings in 7 of 8 cases; the remaining ones keep measuring that the finding is still there
@@ -503,7 +528,7 @@ def case_strategy(draw, tier='quick'):
     return case
 
 # ---------------------------------------------------------------------------------------------------------------
-LAZY = ('rangetoken:complement', 'kidOK', 'schema-load', 'domimpl-registry', 'doctype-ownerless', 'lcp', 'transservice',
+LAZY = ('rangetoken:complement', 'kidOK', 'schema-load', 'lcp-storm', 'domimpl-registry', 'doctype-ownerless', 'lcp', 'transservice',
         'uripool', 'shared-pool', 'scanner-id', 'msgload')
 
 def labels_of(case, summary):
@@ -573,7 +598,8 @@ def replay(case, ctx):
             if kid in r['known'] or (kid not in ACTIVE and r['status'] == 'fail'):
                 return False, 'KNOWN %s still present: %s' % (kid, KNOWN[kid]['what'])
         return True, 'finding %s no longer reproduces' % kid
-    r = run_case(case, attempts=6)
+    # xcode-storm failures are probabilistic per run (a lock around uninstrumented state was lost): more attempts
+    r = run_case(case, attempts=20 if any(it['k'] == 'storm' for t in case['threads'] for it in t) else 6)
     if r['status'] == 'fail': return False, r['detail']
     return True, 'ok (%s)' % r['status']
 
